@@ -190,9 +190,14 @@ def run(ctx, model_ok=True):
         perms = list(itertools.permutations(range(n)))
         if quick and len(perms) > 2:
             perms = [perms[0], perms[-1]] + rng.sample(perms[1:-1], 1)
+        # thorough: every pair of arrival orders up to 3 stripes; a sample of 24 pairs for 4 stripes (576 pairs x 8 configurations
+        # of real multi-process runs would take hours)
+        pairs = [(p1, p2) for p1 in perms for p2 in (perms if not quick else [perms[-1]])]
+        if not quick and len(pairs) > 40:
+            pairs = rng.sample(pairs, 24)
         for mask in (True, False) if (not quick or (cores, ns) in ((2, 2), (2, 3))) else (True,):
-            for p1 in perms:
-                for p2 in (perms if not quick else [perms[-1]]):
+            for p1, p2 in pairs:
+                if True:
                     delay = {}
                     for rank, k in enumerate(p1):
                         delay[f'{ymins[k]}:wait1'] = 0.12 * rank
